@@ -79,7 +79,7 @@ def check_shape(part, normals, energies, case, key, scale_test=False):
     slack = V @ np.asarray(normals).T - np.asarray(energies)[None, :]
     worst = slack.max() / scale
     part.dev("inequality_violation", max(worst, 0.0))
-    if worst > 1e-7:
+    if not (worst <= 1e-7):
         part.fail("vertex-outside:%s" % key, "a vertex violates a facet inequality by %.3g (relative)" % worst, case)
     nb = (np.abs(slack) < 1e-6 * scale).sum(axis=1)
     if (nb < 3).any():
